@@ -14,6 +14,10 @@ Driver family `evm` (C10).  Lines written by `harness/ethereum/*_verif_test.go`:
   reads that reached the node during the op: block tags of `eth_getBlockByNumber`, or the name of another method).
   `<tail>` = `lat= fin= safe= pe= ans=<tx:answer,..>` (inputs: heads after the op, what the node answers for each pending tx)
   then the implementation's results `heads= look= fwd= reord= out= pend= en= exit= stuck= bts=`.
+* `restart <cid> was= gserr= <tail> sub=` — `Run` had returned (`was` = why) and the supervisor started it again on the same
+  `Watcher`; `gserr=1`: the guardian-set call of the new incarnation failed (`Run` returned again during start-up).
+* `gsf <id> via= cur= cidx= cn= ckeys= callerr= sent= idx= n= keys= err= after= panic= stuck=` — one guardian-set fetch
+  (`fetchAndUpdateGuardianSet` directly, or the initial fetch of `Run`): what the chain holds next to what arrived on `setC`.
 * `evt <id> ...` / `gb <id> ...` / `pb <id> ...` — direct calls of `MessageEventsForTransaction`, `getBlock`, `pollBlocks`.
 
 One verdict per case id (`ok` / `diff` / `spec`, Spec first).  The Spec is evaluated on the implementation's own
@@ -408,6 +412,20 @@ def stepCase (c : CaseSt) (op : String) (fs : List String) : CaseSt :=
           let cs := specEval cm op topicBytes specIn
           { cs with truth := insertPend pB cs.truth }
       | _, _, _, _, _, _, _, _, _, _ => c.addDiff s!"{op}#{c.lines} unparsable race line"
+    | "restart" =>
+      let gserr := kvBool fs "gserr"
+      let c := { c with maxServed := max c.maxServed W }
+      -- model: only a Run that has returned is started again; the pending set is the Watcher's, the connector is new
+      let cm : CaseSt :=
+        if c.alive then c.addDiff s!"{op}#{c.lines} restart of a Run that the model says is still running"
+        else { c with st := restart c.st W, alive := !gserr }
+      let cm := compareObs cm op fs { exit := if gserr then "gs" else "-" }
+      let cm := if !gserr && !c.alive && kvBool fs "en" then cm.addDiff s!"{op}#{cm.lines} poller enabled right after a restart" else cm
+      let expSub := s!"{toHex c.cfg.contract}/{logTopicHex};-"
+      let cm := if !gserr && implExit = "-" && kv fs "sub" ≠ some expSub then
+                  cm.addSpec "sub-filter" s!"{op}#{cm.lines} log subscription filter after the restart is {(kv fs "sub").getD "?"}, expected {expSub}" else cm
+      -- Spec: no head is processed by a restart, so nothing may be forwarded and nothing may leave the pending set
+      specEval cm op topicBytes specIn
     | "head" =>
       let c := { c with maxServed := if pe ≥ 3 then c.maxServed else max c.maxServed W }
       let (cm, obs) : CaseSt × Obs :=
@@ -554,6 +572,50 @@ def stepPb (id : String) (fs : List String) : List String :=
     else [s!"ok {id}"]
   | _, _, _, _, _ => [s!"diff {id} unparsable pb line"]
 
+/-! ## guardian-set fetch lines -/
+
+def parseCur (s : String) : Option (Option Nat) := if s = "nil" then some none else s.toNat?.map some
+
+def showKeys (ks : List Bytes) : String := joinS (ks.map toHex) ","
+
+/-- Spec clause `guardian-set-altered-before-processor` (C07: the node's threshold is computed from the set it was handed, the
+contracts' from the set on chain): whatever arrives on `setC` is the chain's current index with the chain's keys, all of them,
+in order. Evaluated on the implementation's side of the line only. -/
+def gsAltered (cidx : Nat) (ckeys : List Bytes) (idx : String) (keys : List Bytes) : Option String :=
+  if idx ≠ toString cidx then some s!"index differs: chain {cidx}, handed on {idx}"
+  else if keys.length ≠ ckeys.length then some s!"{ckeys.length} keys on chain, {keys.length} handed on"
+  else match (List.range keys.length).find? (fun i => keys[i]? ≠ ckeys[i]?) with
+    | some i => some s!"key {i} differs: chain {(ckeys[i]?.map toHex).getD "?"}, handed on {(keys[i]?.map toHex).getD "?"}"
+    | none => none
+
+def stepGsf (id : String) (fs : List String) : List String × String :=
+  match (kv fs "cur") >>= parseCur, kvNat fs "cidx", (kvList fs "ckeys" ",").mapM ofHex, kvNat fs "sent", kv fs "idx",
+        (kvList fs "keys" ",").mapM ofHex, (kv fs "after") >>= parseCur with
+  | some cur, some cidx, some ckeys, some sent, some idx, some keys, some after =>
+    let callerr := kvBool fs "callerr"
+    let (mAfter, mSent, mErr) := gsFetch cur (if callerr then none else some (cidx, ckeys))
+    -- Spec first, on what the implementation handed on
+    let spec : Option String :=
+      if sent = 0 then none
+      else if callerr then some "a set was handed on although the contract call failed"
+      else if sent > 1 then some s!"{sent} sets handed on for one fetch"
+      else gsAltered cidx ckeys idx keys
+    match spec with
+    | some why =>
+      ([s!"spec {id} guardian-set-altered-before-processor the set handed to the processor is not the set the chain holds (index {cidx}, {ckeys.length} keys): {why}"], "gsf_spec")
+    | none =>
+      let mSentS := match mSent with
+        | some (i, ks) => s!"1:{i}:{showKeys ks}"
+        | none => "0"
+      let iSentS := if sent = 0 then "0" else s!"{sent}:{idx}:{showKeys keys}"
+      if kvBool fs "stuck" then ([s!"diff {id} guardian-set fetch did not return"], "diff")
+      else if kvBool fs "panic" then ([s!"diff {id} guardian-set fetch panicked"], "diff")
+      else if kvBool fs "err" ≠ mErr then ([s!"diff {id} guardian-set fetch error: model={mErr} impl={(kv fs "err").getD "?"}"], "diff")
+      else if iSentS ≠ mSentS then ([s!"diff {id} handed to the processor: model={(mSentS.take 200).toString} impl={(iSentS.take 200).toString}"], "diff")
+      else if kv fs "via" = some "direct" && after ≠ mAfter then ([s!"diff {id} remembered index: model={mAfter} impl={(kv fs "after").getD "?"}"], "diff")
+      else ([s!"ok {id}"], if mSent.isSome then "gsf_handed_on" else if mErr then "gsf_call_failed" else "gsf_already_current")
+  | _, _, _, _, _, _, _ => ([s!"diff {id} unparsable gsf line"], "bad")
+
 def countOutcomes (st : DSt) (fs : List String) : DSt :=
   (kvList fs "out" ",").foldl (fun st o =>
     match (o.splitOn ":").getLast? with
@@ -569,7 +631,7 @@ def step (st : DSt) (line : String) : DSt × List String :=
       | none => []
     ({ bump st "ws_cases" with cur := some (startCase id rest) }, outs)
   | op :: id :: rest =>
-    if op = "log" || op = "head" || op = "reobs" || op = "race" then
+    if op = "log" || op = "head" || op = "reobs" || op = "race" || op = "restart" then
       match st.cur with
       | some c =>
         if c.id = id then
@@ -582,6 +644,9 @@ def step (st : DSt) (line : String) : DSt × List String :=
       | none => (st, [s!"diff {id} line before any start"])
     else if op = "evt" then
       let (outs, k) := stepEvt id rest
+      (bump st k, outs)
+    else if op = "gsf" then
+      let (outs, k) := stepGsf id rest
       (bump st k, outs)
     else if op = "gb" then (bump st "getblock", stepGb id rest)
     else if op = "pb" then (bump st "pollblocks", stepPb id rest)
